@@ -80,12 +80,11 @@ class wind(PseudoNetCDFFile):
         self.__dummy_length = (rf.record_size + 8) // 4
         lays //= 2
         record = rows * cols * 4 + 8
-        total_size = self.__dummy_length
-        times = 0
-        while total_size < rf.length:
-            times += 1
-            total_size += record * 2 * lays + self.__time_hdr_fmts_size + 8
-        times -= 1
+        # bytes per time step: time header, U and V per layer, and the
+        # record that closes the step
+        step_size = (self.__time_hdr_fmts_size + 8 + record * 2 * lays +
+                     self.__dummy_length * 4)
+        times = rf.length // step_size
 
         self.variables = OrderedDict
         del rf
